@@ -11,7 +11,7 @@ from props import fam_map as F
 FIELDS = ['nx', 'ny', 'nz', 'mode', 'sx', 'sy', 'sz', 'mx', 'my', 'mz', 'mapc', 'mapr', 'maps', 'ispg']
 
 
-MANIFEST = {'technique': 'Coq proof (CCP4 set-up index bounds from exactly the checks the code makes, symmetry expansion in bounds for every table row, gzip growth loop terminates, MemoryStream never past the end; snapshot behaviour refuted with witnesses) + outcome-class differential check + sanitizer/timeout runs on corrupted and truncated files', 'text': 'Theorems (repaired code): for every header and data vector the re-indexing of setup() in every mode returns or throws and never indexes outside the grid, assuming only the tests the code itself makes; symmetrize_using_ops is in bounds for every table row on an accepted grid; the gzip buffer-growth loop finishes within `total` iterations with an exception or exactly `total` bytes; the MemoryStream cursor stays in [0, size] and every copied range is inside the buffer over arbitrary operation sequences. The snapshot versions are refuted by vm_compute witnesses (zero sampling word -> remainder by zero, wrapped point counts, ISIZE = 0 non-termination, skip past the end). Outcome class (OK/EXC) of gemmi vs model for 14 header words x boundary values x modes x Ccp4<float>/<int8_t>; truncation at every offset through memory/file/gzip; random multi-word corruption; MTZ files likewise (ASan+UBSan build and a UBSan+RLIMIT_AS build with per-case alarm). The MTZ reader skeleton is NOT modelled (sanitizer runs only).', 'note': 'Trusted: Coq kernel; extraction; harness; sanitizers. No axioms. zlib, allocation failure and real pointer overflow are outside the model.'}
+MANIFEST = {'technique': 'Coq proof (CCP4 set-up index bounds from exactly the checks the code makes, symmetry expansion in bounds for every table row, gzip growth loop terminates, MemoryStream never past the end; snapshot behaviour refuted with witnesses) + outcome-class differential check + sanitizer/timeout runs on corrupted and truncated files', 'text': 'Theorems (repaired code): for every header and data vector the re-indexing of setup() in every mode returns or throws and never indexes outside the grid, assuming only the tests the code itself makes; symmetrize_using_ops is in bounds for every table row on an accepted grid; the gzip buffer-growth loop finishes within `total` iterations with an exception or exactly `total` bytes; the MemoryStream cursor stays in [0, size] and every copied range is inside the buffer over arbitrary operation sequences. The snapshot versions are refuted by vm_compute witnesses (zero sampling word -> remainder by zero, wrapped point counts, ISIZE = 0 non-termination, skip past the end). Outcome class (OK/EXC) of gemmi vs model for 14 header words x boundary values x modes x Ccp4<float>/<int8_t>; truncation at every offset through memory/file/gzip; random multi-word corruption (ASan+UBSan build and a UBSan+RLIMIT_AS build with per-case alarm). MTZ: valid merged / unmerged-with-batch-headers / sample / empty files written by gemmi, every integer field of the text header set to boundary values, totals and their parts changed consistently, prologue words, truncation, random record corruption, with and without data, through memory / file / gzip, under ASan+UBSan with alarm: OK|EXC required. The MTZ reader skeleton is NOT modelled (sanitizer runs only).', 'note': 'Trusted: Coq kernel; extraction; harness; sanitizers. No axioms. zlib, allocation failure and real pointer overflow are outside the model.'}
 
 def setup_line(T, f, swap, smode, dflt, seed):
     return 'setup\t%s %s %d %d %d %d' % (T, ' '.join(str(f[k]) for k in FIELDS), swap, smode, dflt, seed)
@@ -128,6 +128,57 @@ def gen_oracles(rng, quick):
     return lines
 
 
+MTZ_VALUES = ['0', '-1', '1', '2', '7', '13', '28', '30', '155', '157', '185', '186', '500', '1000', '1001', '65536',
+              '2147483647', '-2147483648', '99999999', '4294967295', '-99']
+
+
+def gen_mtz_cases(rng, quick, hm):
+    """Structure-aware corruptions of valid MTZ files written by gemmi (merged, unmerged with batch headers, the
+    sample file of /repo/tests, a file with no reflections): every integer field of the text header set to boundary
+    values, adjacent length fields changed consistently (a total and its parts), the binary prologue words, truncation,
+    random byte/record corruption; with and without the data section; through memory, file and gzip."""
+    lines = []
+    rc, out, err = vlib.run_lines(hm, [], inp=b''.join(b'mtz_toks\t%d\nmtz_size\t%d\n' % (v, v) for v in range(4)))
+    for v in range(4):
+        toks = out[2 * v].split('\t')[2].split()
+        size = int(out[2 * v + 1].split('\t')[2])
+        for mode in range(6):
+            lines.append('mtz_valid\t%d %d' % (v, mode))
+        vals = [int(t) for t in toks]
+        for i, a in enumerate(vals):
+            cand = set(MTZ_VALUES) | {str(a + 1), str(a - 1), str(2 * a), str(-a)}
+            if quick and v in (2, 3):
+                cand = set(rng.sample(sorted(cand), 6))
+            for val in sorted(cand):
+                for mode in ((0, 1) if not quick else (rng.choice([0, 1]),)):
+                    lines.append('mtz_tok\t%d %d %d %s' % (v, mode, i, val))
+            if not quick:
+                lines.append('mtz_tok\t%d %d %d %s' % (v, rng.choice([2, 3, 4, 5]), i, rng.choice(MTZ_VALUES)))
+            if i + 1 < len(vals):
+                b = vals[i + 1]
+                for (x, y) in ((a + 1, b - 1), (a - 1, b + 1), (a + b, 0), (0, a + b), (a + 1, b + 1), (b, a), (1000, 1000)):
+                    lines.append('mtz_tok\t%d %d %d %d %d %d' % (v, rng.choice([0, 1]), i, x, i + 1, y))
+            if i + 2 < len(vals):
+                b, c = vals[i + 1], vals[i + 2]
+                if a == b + c or not quick:
+                    for (x, y, z) in ((a, b + 1, c - 1), (a, b - 1, c + 1), (a + 1, b + 1, c), (a + 1, b, c + 1), (1000, 500, 500),
+                                      (1000, 1000, 0), (1000, 0, 1000), (1001, 501, 500), (0, 0, 0), (a, a, 0), (a, 0, a),
+                                      (2 * a, 2 * b, 2 * c), (-a, -b, -c)):
+                        for mode in (0, 1):
+                            lines.append('mtz_tok\t%d %d %d %d %d %d %d %d' % (v, mode, i, x, i + 1, y, i + 2, z))
+        cuts = range(size) if not quick else sorted(set(list(range(0, 100)) + rng.sample(range(size), 150) + list(range(size - 90, size))))
+        for c in cuts:
+            lines.append('mtz_cut\t%d %d %d' % (v, c, rng.choice([0, 1, 1, 1, 3, 5]) if not quick else rng.choice([0, 1])))
+        for wi in range(20):
+            for vi in range(14):
+                if quick and wi > 3 and vi % 5:
+                    continue
+                lines.append('mtz_word\t%d %d %d %d' % (v, wi, vi, rng.choice([0, 1])))
+        for _ in range(150 if quick else 20000):
+            lines.append('mtz_rand\t%d %d %d %d' % (v, rng.randint(0, 10 ** 9), rng.choice([1, 1, 2, 3, 6]), rng.choice([0, 1, 1, 1, 3, 5])))
+    return lines
+
+
 def report(chk, res, hname):
     for l in res['outputs']:
         p = l.split('\t')
@@ -162,7 +213,7 @@ def run(chk):
                     'per-case alarm (10-20 s) in the harness: a non-terminating reader is reported as a crash of that case']
     chk.assumptions += ['zlib is abstract in the gzip model: gzread delivers min(len, remaining) bytes',
                         'MemoryStream model tracks positions only; buffer contents (newline positions) are supplied by the driver',
-                        'the MTZ reader skeleton is not modelled (exercised by property C08\'s family); std::bad_alloc / '
+                        'the MTZ reader skeleton is not modelled (harness/h_mtzfuzz.cpp: sanitizer runs on structure-aware corruptions only); std::bad_alloc / '
                         'std::length_error from absurd sizes count as exceptions',
                         'Full-mode symmetry expansion on a grid NOT accepted by check_grid_factors is tested, not proved '
                         '(the model predicts EXC/OK/OOB per case; no OOB was found)']
@@ -176,8 +227,19 @@ def run(chk):
     again += [l for l in lines if l.startswith('o_fuzz') or l.startswith('o_trunc')]
     res2 = vlib.correspond(chk, hub, d, again, timeout=1500)
     report(chk, res2, 'h_map_ub')
+    hm = F.harness_mtz()
+    res3 = vlib.correspond(chk, hm, None, gen_mtz_cases(rng, quick, hm), timeout=1500,
+                           env={'ASAN_OPTIONS': 'detect_leaks=0:abort_on_error=0:allocator_may_return_null=1:max_allocation_size_mb=2048'})
+    # ASan aborts on an allocation it cannot satisfy (operator new never returns null): those cases are decided by
+    # the UBSan build under RLIMIT_AS 2 GiB, where the same request throws std::bad_alloc
+    oom = [c for c in res3['crashes'] if 'out-of-memory' in c[2] or 'allocation-size-too-big' in c[2]]
+    res3['crashes'] = [c for c in res3['crashes'] if c not in oom]
+    report(chk, res3, 'h_mtzfuzz')
+    if oom:
+        res4 = vlib.correspond(chk, F.harness_mtz_ub(), None, [c[0] for c in oom], timeout=1500)
+        report(chk, res4, 'h_mtzfuzz_ub')
     import glob, os
-    for f in glob.glob('/tmp/gv_map_*'):      # scratch files left behind by cases that crashed or timed out
+    for f in glob.glob('/tmp/gv_map_*') + glob.glob('/tmp/verif_mtzfuzz_*'):      # scratch files left behind by cases that crashed or timed out
         try:
             os.remove(f)
         except OSError:
@@ -189,6 +251,7 @@ def run(chk):
                 'multi-word corruption through memory / file / gzip streams in both builds: OK|EXC required. '
                 'MemoryStream: random op sequences incl. lengths beyond the end and near 2^64 vs model. gzip: valid single- and '
                 'multi-member files vs the growth-loop model; corrupted ISIZE trailers, every truncation, bit flips: OK|EXC, no timeout. '
+                'MTZ: 4 valid files x every integer header token x ~25 values, consistent pairs/triples of adjacent length fields, 20 prologue words x 14 values, truncations, seeded random corruptions, 6 reading modes: OK|EXC. '
                 'non-trivial = the reader returned or threw (not skipped)')
     if not proved:
         chk.violate('proof', 'Properties_C03 ' + ','.join(getattr(chk, 'failed_theorems', [])),
@@ -197,9 +260,13 @@ def run(chk):
 
 def replay(chk, path):
     r = json.load(open(path))['replay']
-    h = F.harness() if r.get('harness') != 'h_map_ub' else F.harness_ub()
+    h = F.harness_mtz() if r.get('harness') == 'h_mtzfuzz' else F.harness_mtz_ub() if r.get('harness') == 'h_mtzfuzz_ub' else F.harness() if r.get('harness') != 'h_map_ub' else F.harness_ub()
     rc, out, err = vlib.run_lines(h, [], inp=(r['line'] + '\n').encode(), timeout=120)
     print('\n'.join(out), err[-2000:], 'rc=%s' % rc)
+    if r.get('harness', '').startswith('h_mtzfuzz'):
+        if rc != 0:
+            chk.violate('crash', 'replayed input crashes', err[-2000:])
+        return
     d = F.driver()
     rc, out2, err2 = vlib.run_lines(d, [], inp=('\n'.join(out) + '\n').encode())
     print('\n'.join(out2))
